@@ -687,7 +687,8 @@ func (service *serviceType) handleBuildRequest(id uint32, request map[string]int
 			Setup: func(build api.PluginBuild) {
 				build.OnStart(func() (api.OnStartResult, error) {
 					activeBuild.mutex.Lock()
-					if currentWaitGroup := activeBuild.rebuildWaitGroup; currentWaitGroup != nil && activeBuild.didGetCancel {
+					// The context is gone if "dispose()" has already been handled
+					if ctx, currentWaitGroup := activeBuild.ctx, activeBuild.rebuildWaitGroup; ctx != nil && currentWaitGroup != nil && activeBuild.didGetCancel {
 						// Cancel the current build now that the current build is active.
 						// This catches the case where JS does "rebuild()" then "cancel()"
 						// but Go's scheduler runs the original "ctx.Cancel()" goroutine
@@ -703,7 +704,7 @@ func (service *serviceType) handleBuildRequest(id uint32, request map[string]int
 						// some independent future build.
 						activeBuild.rebuildWaitGroup.Add(1)
 						go func() {
-							activeBuild.ctx.Cancel()
+							ctx.Cancel()
 
 							// Lock the mutex because "sync.WaitGroup" isn't thread-safe.
 							// But use the wait group that was active at the time the
